@@ -218,6 +218,10 @@ namespace link_layer {
 
             if ( type == pdu_type_start )
             {
+                // a new L2CAP PDU starts, an unfinished one is abandoned
+                receive_buffer_used_ = 0;
+                receive_size_        = 0;
+
                 if ( body_size >= l2cap_header_size )
                 {
                     const std::uint16_t l2cap_size  = bluetoe::details::read_16bit( body.first );
@@ -254,7 +258,8 @@ namespace link_layer {
     {
         const std::size_t copy_size = std::min< std::size_t >( receive_size_, end - begin );
 
-        std::copy( begin, end, &receive_buffer_[ receive_buffer_used_ ] );
+        // surplus data is not part of the SDU beeing reassembled
+        std::copy( begin, begin + copy_size, &receive_buffer_[ receive_buffer_used_ ] );
         receive_buffer_used_ += copy_size;
         receive_size_ -= copy_size;
     }
@@ -307,10 +312,12 @@ namespace link_layer {
     template < class BufferedRadio, class ReceiveCallbacks, std::size_t MTUSize >
     void ll_l2cap_sdu_buffer< BufferedRadio, ReceiveCallbacks, MTUSize >::free_ll_l2cap_received()
     {
-        if (receive_buffer_used_)
+        // only a completely reassembled SDU is handed out of the receive_buffer_. Everything else
+        // (LL control PDUs, unfragmented SDUs) is handed out of the radio's buffer, even while
+        // a SDU is beeing reassembled.
+        if ( receive_buffer_used_ != 0 && receive_size_ == 0 )
         {
             receive_buffer_used_ = 0;
-            receive_size_ = 0;
         }
         else
         {
